@@ -591,7 +591,10 @@ def run(ctx):
     prefs += [''.join(rng.choice('netcofxmlag -_é') for _ in range(rng.randint(1, 9))) for _ in range(60 if ctx.tier == 'quick' else 600)]
     def nexus_impl(ps):
         from ncclient.manager import make_device_handler
-        return [make_device_handler({'name': 'nexus', 'ssh_subsystem_name': p} if p is not None else {'name': 'nexus'}).get_ssh_subsystem_names() for p in ps]
+        # strings are rebuilt at run time: a preferred name that merely EQUALS a built-in one (read from a file,
+        # argv, JSON ...) is not the interned literal of the source
+        fresh = lambda p: None if p is None else ''.join([c for c in p])
+        return [make_device_handler({'name': 'nexus', 'ssh_subsystem_name': fresh(p)} if p is not None else {'name': 'nexus'}).get_ssh_subsystem_names() for p in ps]
     ni = in_fresh_process(nexus_impl, prefs)
     nm = ctx.model.batch([[3, [] if p is None else [p.encode()]] for p in prefs]) if ctx.model else [None] * len(prefs)
     for p, a, b in zip(prefs, ni, nm):
@@ -715,7 +718,7 @@ def replay(doc):
     if c.get('check') == 'nexus_subsystems':
         from ncclient.manager import make_device_handler
         p = c['preferred']
-        a = make_device_handler({'name': 'nexus', 'ssh_subsystem_name': p} if p is not None else {'name': 'nexus'}).get_ssh_subsystem_names()
+        a = make_device_handler({'name': 'nexus', 'ssh_subsystem_name': ''.join([ch for ch in p])} if p is not None else {'name': 'nexus'}).get_ssh_subsystem_names()
         print('case     :', c); print('expected : duplicate-free,', p or 'netconf', 'first'); print('actual   :', a)
         return len(set(a)) == len(a) and a[0] == (p or 'netconf')
     h = c['history']
